@@ -19,7 +19,8 @@ fn meta(oid: u32, t: i64, filled: D4) -> MetaS {
 }
 fn order(ex: usize, inst: usize, cid: u32, st: StS) -> OrderS {
     OrderS {
-        key: key(ex, inst, cid),
+        // two strategies' orders side by side on one instrument
+        key: KeyS { ex, inst, strat: if cid % 3 == 0 { STRAT + 1 } else { STRAT }, cid },
         buy: cid % 2 == 0,
         price: 1_002_500 + 2500 * cid as i64,
         qty: 20_000,
@@ -55,8 +56,9 @@ fn subsets<T: Clone>(items: &[T]) -> Vec<Vec<T>> {
         .collect()
 }
 
-/// every filter for a state: None, all subsets of exchanges / instruments / distinct underlyings,
-/// plus unknown keys, a swapped underlying and a duplicated entry
+/// every filter for a state: None; all subsets of the exchanges; all instrument subsets of size <= 2 and
+/// the full set; all subsets of the distinct underlyings; plus unknown keys, a swapped underlying, and
+/// lists naming the same key twice / three times (a filter is a list, not a set)
 fn all_filters(lay: &[(usize, usize, usize)], n_ex: usize) -> Vec<FilterS> {
     let mut fs = vec![FilterS::None];
     let exs: Vec<usize> = (0..n_ex).collect();
@@ -65,12 +67,19 @@ fn all_filters(lay: &[(usize, usize, usize)], n_ex: usize) -> Vec<FilterS> {
     }
     fs.push(FilterS::Exchanges(vec![n_ex + 3]));
     fs.push(FilterS::Exchanges(vec![0, 0]));
-    let is: Vec<usize> = (0..lay.len()).collect();
+    fs.push(FilterS::Exchanges(vec![1, 0, 1, 1]));
+    let n = lay.len();
+    let is: Vec<usize> = (0..n).collect();
     for s in subsets(&is) {
-        fs.push(FilterS::Instruments(s));
+        if s.len() <= 2 || s.len() == n {
+            fs.push(FilterS::Instruments(s));
+        }
     }
-    fs.push(FilterS::Instruments(vec![lay.len() + 2]));
-    fs.push(FilterS::Instruments(vec![lay.len() - 1, lay.len() - 1]));
+    fs.push(FilterS::Instruments(vec![n + 2]));
+    fs.push(FilterS::Instruments(vec![n - 1, n - 1]));
+    fs.push(FilterS::Instruments(vec![0, 2, 0]));
+    fs.push(FilterS::Instruments(vec![1, 1, 1]));
+    fs.push(FilterS::Instruments(vec![n - 1, 0, n + 1, 0]));
     let mut us: Vec<(usize, usize)> = lay.iter().map(|l| (l.1, l.2)).collect();
     us.sort();
     us.dedup();
@@ -79,75 +88,84 @@ fn all_filters(lay: &[(usize, usize, usize)], n_ex: usize) -> Vec<FilterS> {
     }
     fs.push(FilterS::Underlyings(vec![(us[0].1, us[0].0)])); // quote/base swapped
     fs.push(FilterS::Underlyings(vec![(us[0].0, us[0].1 + 50)]));
+    fs.push(FilterS::Underlyings(vec![us[0], us[0]]));
+    fs.push(FilterS::Underlyings(vec![us[0], us[us.len() - 1], us[0], us[0]]));
     fs
 }
 
-fn cmd_steps(cmd: &CmdS, path: usize) -> Vec<StepS> {
+fn cmd_steps(cmd: &CmdS, path: usize, times: usize, many1: bool) -> Vec<StepS> {
     let op = |c: &CmdS| if path == 0 { OpS::Process(EvS::Command(c.clone())) } else { OpS::Action(c.clone()) };
-    // the command, issued twice
-    vec![
-        StepS { op: op(cmd), g: GS::default(), close: default_close() },
-        StepS { op: op(cmd), g: GS::default(), close: default_close() },
-    ]
+    // the command, issued `times` times in a row
+    (0..times).map(|_| StepS { op: op(cmd), g: GS::default(), close: default_close(), many1 }).collect()
+}
+
+const TIMES: [i64; 12] =
+    [0, 1, 999, 1_000, 999_999, 1_000_000, 1_000_001, 999_999_999, 1_000_000_000, 86_400_000_000_000, -1, -3_000_000_000_000_000];
+fn pick_time(r: &mut Rng) -> i64 {
+    *r.pick(&TIMES)
+}
+/// two-sided books have an exact volume-weighted mid-price (amounts 1:1 or 1:3)
+fn gen_l1(r: &mut Rng) -> L1S {
+    let t = pick_time(r);
+    let bp = 2500 * (1 + r.below(400) as i64);
+    let ap = bp + 2500 * (1 + r.below(8) as i64);
+    let a = 1_000 * (1 + r.below(9) as i64);
+    match r.below(5) {
+        0 => L1S { t, bid: Some((bp, a)), ask: None },
+        1 => L1S { t, bid: None, ask: Some((ap, a)) },
+        2 => L1S { t, bid: Some((bp, a)), ask: Some((ap, 3 * a)) },
+        _ => L1S { t, bid: Some((bp, a)), ask: Some((ap, a)) },
+    }
 }
 
 /// the fixed table state: 3 exchanges; two instruments on exchange 0 sharing an underlying, the same
 /// asset names on exchange 1 (different asset indices), a different underlying on exchange 2;
 /// per instrument a different mix of order states, long / short / no position, price or not
 fn table_state(links: Vec<LinkS>) -> Spec {
+    // client order ids share prefixes ("1", "11", "111"); every order state occurs
     let all_states = |ex: usize, inst: usize| {
         vec![
             order(ex, inst, 1, StS::Oif),
-            order(ex, inst, 2, StS::Open(meta(12, 5, 0))),
-            order(ex, inst, 3, StS::Open(meta(13, 6, 5_000))), // partially filled
+            order(ex, inst, 11, StS::Open(meta(12, 999_999, 0))),
+            order(ex, inst, 111, StS::Open(meta(13, 1_000_000, 5_000))), // partially filled
             order(ex, inst, 4, StS::Cif(None)),
-            order(ex, inst, 5, StS::Cif(Some(meta(15, 7, 0)))),
+            order(ex, inst, 5, StS::Cif(Some(meta(15, 1_000_001, 0)))),
         ]
+    };
+    let mk = |ex: usize, base: &str, quote: &str, kind: u8, csize: D4, settle: &str, orders, pos, last, l1| InstS {
+        ex,
+        base: base.into(),
+        quote: quote.into(),
+        orders,
+        pos,
+        last,
+        kind,
+        csize,
+        settle: settle.into(),
+        l1,
     };
     Spec {
         trading: false,
         links,
         instruments: vec![
-            InstS {
-                ex: 0,
-                base: "a".into(),
-                quote: "b".into(),
-                orders: all_states(0, 0),
-                pos: Some(PosS { buy: true, qty: 15_000, qty_max: 20_000 }),
-                last: Some((10, 1_002_500)),
-            },
-            InstS {
-                ex: 0,
-                base: "a".into(),
-                quote: "b".into(),
-                orders: vec![order(0, 1, 2, StS::Cif(Some(meta(22, 1, 0)))), order(0, 1, 7, StS::Oif)],
-                pos: Some(PosS { buy: false, qty: 7_500, qty_max: 10_000 }),
-                last: None, // position but no price
-            },
-            InstS {
-                ex: 1,
-                base: "a".into(),
-                quote: "b".into(),
-                orders: vec![order(1, 2, 1, StS::Open(meta(31, 2, 0)))],
-                pos: Some(PosS { buy: false, qty: 2_500, qty_max: 2_500 }),
-                last: Some((3, 505_000)),
-            },
-            InstS {
-                ex: 1,
-                base: "c".into(),
-                quote: "a".into(),
-                orders: vec![],
-                pos: None, // price but no position
-                last: Some((4, 20_000)),
-            },
-            InstS {
-                ex: 2,
-                base: "b".into(),
-                quote: "c".into(),
-                orders: all_states(2, 4),
-                pos: Some(PosS { buy: true, qty: 100, qty_max: 30_000 }),
-                last: Some((9, 77_500)),
-            },
+            // exchange 0: spot + perpetual (contract size 0.001, settled in the quote) + option (size 100,
+            // settled in a third asset) all on the SAME underlying a/b
+            mk(0, "a", "b", 0, 0, "", all_states(0, 0), Some(PosS { buy: true, qty: 15_000, qty_max: 20_000 }),
+               Some((10, 1_002_500)), None),
+            mk(0, "a", "b", 1, 10, "b", vec![order(0, 1, 11, StS::Cif(Some(meta(22, 1, 0)))), order(0, 1, 7, StS::Oif)],
+               Some(PosS { buy: false, qty: 7_500, qty_max: 10_000 }), None,
+               Some(L1S { t: 5, bid: Some((1_000_000, 2_000)), ask: None })), // position, one-sided book: no price
+            mk(0, "a", "b", 3, 1_000_000, "c", vec![order(0, 2, 1, StS::Open(meta(23, 2, 0)))],
+               Some(PosS { buy: true, qty: 2_500, qty_max: 5_000 }), Some((3, 990_000)),
+               // two-sided book: price = volume-weighted mid 101.5, NOT the last trade 99
+               Some(L1S { t: 1_000, bid: Some((1_010_000, 3_000)), ask: Some((1_030_000, 1_000)) })),
+            // exchange 1: the same asset names (different asset indices), a future
+            mk(1, "a", "b", 2, 100, "a", vec![order(1, 3, 1, StS::Open(meta(31, 2, 0)))],
+               Some(PosS { buy: false, qty: 2_500, qty_max: 2_500 }), Some((3, 505_000)), None),
+            mk(1, "c", "a", 0, 0, "", vec![], None, Some((4, 20_000)), None), // price but no position
+            // exchange 2
+            mk(2, "b", "c", 1, 1_000_000, "b", all_states(2, 5), Some(PosS { buy: true, qty: 100, qty_max: 30_000 }),
+               Some((9, 77_500)), None),
         ],
         steps: vec![],
     }
@@ -162,34 +180,39 @@ fn filter_kind(f: &FilterS) -> &'static str {
     }
 }
 
+fn filter_len(f: &FilterS) -> usize {
+    match f {
+        FilterS::None => 0,
+        FilterS::Exchanges(l) => l.len(),
+        FilterS::Instruments(l) => l.len(),
+        FilterS::Underlyings(l) => l.len(),
+    }
+}
+
 fn table(em: &mut Emitter) {
     let base = table_state(vec![LinkS::Open, LinkS::Open, LinkS::Open]);
     let (lay, n_ex) = layout(&base);
     let filters = all_filters(&lay, n_ex);
     for f in &filters {
         for (ci, cmd) in [CmdS::CancelOrders(f.clone()), CmdS::ClosePositions(f.clone())].iter().enumerate() {
-            for path in 0..2 {
-                // all links open: the repeat must request nothing; with exchange 0's link closed the
-                // failed requests (and only those) come again
-                for (li, links) in [
-                    vec![LinkS::Open, LinkS::Open, LinkS::Open],
-                    vec![LinkS::Closed, LinkS::Open, LinkS::Missing],
-                ]
-                .iter()
-                .enumerate()
-                {
-                    // the dead-link variant only through Engine::action for half of the filters (size)
-                    if li == 1 && path == 0 {
-                        continue;
-                    }
-                    let mut s = table_state(links.clone());
-                    s.steps = cmd_steps(cmd, path);
-                    let tags = vec![
-                        format!("table_{}_{}", if ci == 0 { "cancel" } else { "close" }, filter_kind(f)),
-                        format!("table_path{}_links{}", path, li),
-                    ];
-                    emit(em, "table", &s, &tags);
-                }
+            // (a) through Engine::process, all links open, the command THREE times: the repeats must
+            //     request nothing;  (b) through Engine::action with exchange 0's link closed and a
+            //     link-less exchange in the MIDDLE, twice: exactly the failed requests come again.
+            //     One-element filters are built as OneOrMany::Many(vec![x]) in (b).
+            for (vi, (path, links, times)) in [
+                (0usize, vec![LinkS::Open, LinkS::Open, LinkS::Open], 3usize),
+                (1usize, vec![LinkS::Closed, LinkS::Missing, LinkS::Open], 2usize),
+            ]
+            .iter()
+            .enumerate()
+            {
+                let mut s = table_state(links.clone());
+                s.steps = cmd_steps(cmd, *path, *times, vi == 1 && filter_len(f) == 1);
+                let tags = vec![
+                    format!("table_{}_{}", if ci == 0 { "cancel" } else { "close" }, filter_kind(f)),
+                    format!("table_path{}_links{}", path, vi),
+                ];
+                emit(em, "table", &s, &tags);
             }
         }
     }
@@ -205,22 +228,23 @@ fn gen_state(r: &mut Rng, adversarial: bool) -> Spec {
     let assets = ["a", "b", "c"];
     let mut instruments = vec![];
     for (j, ex) in exs.iter().enumerate() {
-        let bi = r.below(3) as usize;
-        let qi = (bi + 1 + r.below(2) as usize) % 3;
+        // bias towards a/b so that several instruments of one exchange share an underlying
+        let bi = if r.chance(1, 2) { 0 } else { r.below(3) as usize };
+        let qi = if bi == 0 && r.chance(2, 3) { 1 } else { (bi + 1 + r.below(2) as usize) % 3 };
         let mut orders = vec![];
         let mut used = vec![];
         for _ in 0..r.below(6) {
-            let cid = 1 + r.below(9) as u32;
+            let cid = *r.pick(&[1u32, 2, 3, 4, 5, 6, 11, 12, 111]);
             if used.contains(&cid) {
                 continue;
             }
             used.push(cid);
             let st = match r.below(5) {
                 0 => StS::Oif,
-                1 => StS::Open(meta(100 + cid, r.range(0, 10), 0)),
-                2 => StS::Open(meta(100 + cid, r.range(0, 10), 5_000)),
+                1 => StS::Open(meta(100 + cid, pick_time(r), 0)),
+                2 => StS::Open(meta(100 + cid, pick_time(r), 5_000)),
                 3 => StS::Cif(None),
-                _ => StS::Cif(Some(meta(100 + cid, r.range(0, 10), 0))),
+                _ => StS::Cif(Some(meta(100 + cid, pick_time(r), 0))),
             };
             orders.push(order(*ex, j, cid, st));
         }
@@ -236,7 +260,11 @@ fn gen_state(r: &mut Rng, adversarial: bool) -> Spec {
                     Some(PosS { buy: k == 1, qty: q, qty_max: q + 2_500 * r.below(3) as i64 })
                 }
             },
-            last: if r.chance(2, 3) { Some((r.range(0, 10), 2500 * (1 + r.below(400) as i64))) } else { None },
+            last: if r.chance(2, 3) { Some((pick_time(r), 2500 * (1 + r.below(400) as i64))) } else { None },
+            kind: r.below(4) as u8,
+            csize: *r.pick(&[10_000, 10, 100, 1_000_000]),
+            settle: if r.chance(1, 2) { assets[qi].into() } else { assets[3 - bi - qi].into() },
+            l1: if r.chance(1, 3) { Some(gen_l1(r)) } else { None },
         });
     }
     let n_links = if adversarial { (n_ex as i64 + *r.pick(&[-1i64, 0, 1])).max(0) as usize } else { n_ex };
@@ -261,6 +289,9 @@ fn gen_filter(r: &mut Rng, lay: &[(usize, usize, usize)], n_ex: usize, adversari
             if adversarial && r.chance(1, 3) {
                 v.push(n_ex + r.below(3) as usize);
             }
+            if !v.is_empty() && r.chance(1, 4) {
+                v.push(v[0]);
+            }
             FilterS::Exchanges(v)
         }
         3 | 4 => {
@@ -268,8 +299,11 @@ fn gen_filter(r: &mut Rng, lay: &[(usize, usize, usize)], n_ex: usize, adversari
             if adversarial && r.chance(1, 3) {
                 v.push(lay.len() + r.below(3) as usize);
             }
-            if adversarial && !v.is_empty() && r.chance(1, 3) {
+            if !v.is_empty() && r.chance(1, 3) {
                 v.push(v[0]);
+                if r.chance(1, 2) {
+                    v.push(v[0]);
+                }
             }
             r.shuffle(&mut v);
             FilterS::Instruments(v)
@@ -282,6 +316,12 @@ fn gen_filter(r: &mut Rng, lay: &[(usize, usize, usize)], n_ex: usize, adversari
             if adversarial && r.chance(1, 2) {
                 let u = *r.pick(&us);
                 v.push(*r.pick(&[(u.1, u.0), (u.0, u.1 + 1), (u.0 + 1, u.1)]));
+            }
+            if !v.is_empty() && r.chance(1, 3) {
+                v.push(v[0]);
+                if r.chance(1, 2) {
+                    v.insert(0, v[0]);
+                }
             }
             FilterS::Underlyings(v)
         }
@@ -296,13 +336,17 @@ fn gen_case(r: &mut Rng, adversarial: bool) -> Spec {
         let f = gen_filter(r, &lay, n_ex, adversarial);
         let cmd = if r.chance(1, 2) { CmdS::CancelOrders(f) } else { CmdS::ClosePositions(f) };
         let path = r.below(2) as usize;
-        let mut steps = cmd_steps(&cmd, path);
+        let mut steps = cmd_steps(&cmd, path, 2 + r.below(2) as usize, r.chance(1, 4));
         if r.chance(1, 3) {
             // something happens between the two issues: a failed cancel puts an order back to Open
             // (it must then be requested again), a fill changes a position, a link comes back
             let inst = r.below(lay.len() as u64) as usize;
-            let mid = match r.below(4) {
-                0 => OpS::Process(EvS::CancelResponse { key: key(lay[inst].0, inst, 1 + r.below(9) as u32), ok: r.chance(1, 2) }),
+            let mid = match r.below(5) {
+                0 => OpS::Process(EvS::CancelResponse {
+                    key: key(lay[inst].0, inst, *r.pick(&[1u32, 2, 3, 4, 5, 6, 11, 12, 111])),
+                    ok: r.chance(1, 2),
+                    err: r.below(10) as u8,
+                }),
                 1 => OpS::Process(EvS::Trade {
                     inst,
                     buy: r.chance(1, 2),
@@ -310,10 +354,11 @@ fn gen_case(r: &mut Rng, adversarial: bool) -> Spec {
                     price: 1_000_000,
                     fee: 0,
                 }),
-                2 => OpS::Process(EvS::MarketTrade { inst, t: r.range(0, 30), price: 2500 * (1 + r.below(400) as i64) }),
+                2 => OpS::Process(EvS::MarketTrade { inst, t: pick_time(r), price: 2500 * (1 + r.below(400) as i64) }),
+                3 => OpS::Process(EvS::MarketL1 { inst, t: pick_time(r), l1: gen_l1(r) }),
                 _ => OpS::SetLink(r.below(n_ex as u64) as usize, *r.pick(&[LinkS::Open, LinkS::Closed])),
             };
-            steps.insert(1, StepS { op: mid, g: GS::default(), close: default_close() });
+            steps.insert(1, StepS { op: mid, g: GS::default(), close: default_close(), many1: false });
         }
         if adversarial && r.chance(1, 3) {
             // a strategy request generated in the same step as the command (only when enabled)
